@@ -98,7 +98,7 @@ PROPS = {
         k_thorough=['t_iter_link', 't_it_borrowing', 't_drain', 't_it_owning'],
         assumptions=[A_SUB, A_DOUBLE, A_UNSAFE, A_KBOUND,
                      'snap()/at() heap snapshot: the link structure is immutable while an iterator runs; that the real links satisfy linked() is Kani harness iter_link (bounded)',
-                     'Drain::drop / IntoIter::drop (for-loop over by_ref) are outside Verus: bounded harnesses q_drain, q_ledger_*'],
+                     'Drain::drop / IntoIter::drop: Verus proves (R12) that they drain every entry not yet yielded and leave the table cleared; Drain::new and the seal reset are raw-pointer code: bounded harnesses q_drain, q_ledger_*, q_forget_*'],
         design='DESIGN.md §5 C12'),
     'C13': dict(
         title='capacity management', level='proof', templates=['l2', 'hbcap'],
@@ -110,6 +110,7 @@ PROPS = {
         design='DESIGN.md §5 C13'),
     'C14': dict(
         title='clone', level='proof', templates=['l2'],
+        level_extra='Scope of the proof for C14: the copy itself (length, order, recorded sizes, current_size, max_size, capacity, every key/value a clone of its counterpart).  Independence of source and clone under later operations, Entry::clone, and the Eq-equality of cloned keys are decided only boundedly (Kani).',
         k_quick=['q_op_clone', 'q_op_clone_small', 'q_op_clone_diverge_remove', 'q_op_clone_diverge_realloc', 'q_ledger_clone'],
         k_thorough=['t_op_clone', 't_op_clone_diverge_touch', 't_op_clone_diverge_clear', 't_op_clone_diverge_retain'],
         assumptions=[A_SUB, A_NODE, A_CLONE, A_DOUBLE, A_HB, A_UNSAFE, A_KBOUND,
@@ -117,6 +118,7 @@ PROPS = {
         design='DESIGN.md §5 C14'),
     'C15': dict(
         title='retain', level='proof', templates=['l2'],
+        level_extra='Scope of the proof for C15: the state effect (exactly the rejected entries are gone, survivors keep their order, accounting).  The invocation sequence of the predicate (exactly once per entry, LRU->MRU) and the drops of rejected pairs are decided only boundedly (Kani).',
         k_quick=['q_op_retain', 'q_op_retain_small', 'q_ledger_retain'],
         k_thorough=['t_op_retain'],
         assumptions=[A_SUB, A_NODE, A_EQ, A_DOUBLE, A_HB, A_UNSAFE, A_KBOUND,
